@@ -87,9 +87,9 @@ func fkmodScenario(dialect string, fromRef, toRef int, fromAct, toAct [2]schema.
 	if updown {
 		want = from
 	}
-	emit(ev{"ev": "reset", "c": sc.ID, "req": "realm", "schema": marker,
-		"start": map[string]any{"tables": tables, "fks": [][4]string{fkTuple(from)}},
-		"want":  map[string]any{"tables": tables, "fks": [][4]string{fkTuple(want)}}})
+	emit(ev{"ev": "reset", "c": sc.ID, "req": "realm", "schema": marker, "dialect": dialect,
+		"start": map[string]any{"tables": tables, "fks": []fk5{fkTuple(from)}},
+		"want":  map[string]any{"tables": tables, "fks": []fk5{fkTuple(want)}}})
 	pl, err := planner(dialect).PlanChanges(context.Background(), "plan", []schema.Change{&schema.ModifyTable{T: child, Changes: cs}})
 	if err != nil {
 		sc.Err = err.Error()
